@@ -8,7 +8,7 @@ from .c01 import norm, generator_out_class, EXPECT
 
 LEVEL = 'other'
 RULES = {
-    'C18.R1': 'check dominates push: every builder queues its layer only after compatible_dim(indim) / valid_index(idx) on its own argument succeeded; the two tests mean == in_dim / < in_dim',
+    'C18.R1': 'check dominates push: every builder queues its layer only after compatible_dim(indim) / valid_index(idx) on its own argument succeeded; the two tests mean == in_dim / < in_dim (in_dim possibly read through max_dim())',
     'C18.R2': 'tracked shape = output dimension: a builder whose layer changes the dimension assigns current_shape before recording it (post-operator shape)',
     'C18.R4': 'extract_range copies (layer, shape) pairs of the selected range, input shape from the operator before it, current shape from the last pair',
     'C18.R3': 'variant/name agreement of builders; read_layers: marker -> variant, one entry per neuron of the preceding linear layer, weights and bias files of one index',
